@@ -1,4 +1,5 @@
 import KcpVerif.Lemmas.C09WireRun
+import KcpVerif.Lemmas.C09WireTx
 import KcpVerif.Lemmas.KcpAcc
 /-!
 C09 `wire_reassembles` (DESIGN.md 7.9, section 13) — "… so that an independent decoder written from
@@ -147,6 +148,39 @@ theorem C09_wire_reassembles_complete (k0 : Kcp) (hf : Fresh k0) (hm : InvMss k0
     · exact absurd (hseen n h5) (h4 h5)
   rw [hn, List.take_length] at h2
   exact ⟨h2, fun hc => by rw [h2, grp_flatten_closed _ hc]⟩
+
+/-- **A full flush transmits everything it admits** — the condition of `C09_wire_reassembles_complete`.
+Sequence numbers are handed out by phase 4 of `flush` (of an ACK-only flush too: those segments reach
+the wire with the next full flush); phase 5 of a FULL flush (`flush(IKCP_FLUSH_FULL)`: `Update`,
+`WriteBuffers`, the session's `update`) sends every never-transmitted segment.  So after any history
+followed by a full flush, every index the flush has added to the log is the sequence number of a PUSH
+segment the specification decoder finds on the wire. -/
+theorem C09_full_flush_transmits (k0 : Kcp) (hf : Fresh k0) (hm : InvMss k0) (hsn : k0.snd_nxt = 0) (ops : List Op)
+    (now : U32) (hL : (run { k := k0 } (ops ++ [.flush true now])).log.length ≤ 2 ^ 32) :
+    ∀ i, (run { k := k0 } ops).log.length ≤ i → i < (run { k := k0 } (ops ++ [.flush true now])).log.length →
+      Avail (wireSegs (run { k := k0 } (ops ++ [.flush true now])).wire) i := by
+  have h := C09_wire_invariant k0 hf hm ops
+  rw [hsn] at h
+  have hq := run_qInv ops _ (fresh_qInv k0 hf)
+  obtain ⟨hp, _, _, _⟩ := Lemmas.KcpFlush.flush_ok (run { k := k0 } ops).k true now h.mss
+  have e : run { k := k0 } (ops ++ [.flush true now]) =
+      { run { k := k0 } ops with
+        k := (flush (run { k := k0 } ops).k true now).k
+        log := (run { k := k0 } ops).log ++ admitted (run { k := k0 } ops).k (flush (run { k := k0 } ops).k true now).k
+        wire := (run { k := k0 } ops).wire ++ (flush (run { k := k0 } ops).k true now).outs } := by
+    rw [run_snoc]
+    unfold step
+    rw [if_neg (by simp [h.alive])]
+    simp only []
+    rw [if_neg (by simp [hp])]
+  rw [e] at hL ⊢
+  intro i h1 h2
+  obtain ⟨x, hx, hc, hs⟩ := flush_full_avail h.sg.inv hq h.conv h.bufc now hp hL i h1 h2
+  refine ⟨x, ?_, hc, hs⟩
+  show x ∈ wireSegs ((run { k := k0 } ops).wire ++ (flush (run { k := k0 } ops).k true now).outs)
+  unfold wireSegs at hx ⊢
+  rw [List.flatMap_append]
+  exact List.mem_append_right _ hx
 
 /-- **(b) … and only then**: if the numbered segment `i` has never been seen, nothing from segment `i`
 on is delivered — the reassembled stream is a prefix of the payload of segments `0 … i−1`. -/
